@@ -108,3 +108,45 @@ package fzf
 //@ loop 1
 //@   invariant mg.chunks == nil && mg.lists == lists && mg.sorted == sorted && mg.tac == tac && !mg.pass && mg.minIndex == minIndex
 //@   invariant mg.count == sumlen(lists, iter) && len(mg.merged) == 0 && len(mg.cursors) == len(lists) && forall(l, 0, len(lists), mg.cursors[l] == 0)
+
+// ---------------------------------------------------------------- history
+// h.lines = stored entries (oldest first) followed by one scratch line for the query being typed.
+//@ spec func validHistory(h *History) bool = len(h.lines) >= 1 && 0 <= h.cursor && h.cursor <= len(h.lines) - 1 && h.maxSize >= 1 && h.modified != nil
+
+//@ func History.append
+//@ property C18
+//@ requires h != nil && validHistory(h)
+//@ modifies h.lines, h.lines[0:cap(h.lines)]
+//@ ensures len(line) == 0 ==> result == nil && unchanged(h.lines)
+//@ ensures len(line) > 0 ==> len(h.lines) == min(h.maxSize, old(len(h.lines))) + 1
+//@ ensures len(line) > 0 ==> len(h.lines[len(h.lines)-1]) == 0 && samestr(h.lines[len(h.lines)-2], line)
+//@ note not proved: the older entries keep their relative order (forall k: h.lines[k] is old(h.lines)[k + shift]); only length, last entry and scratch line are
+//@ note after append the cursor may point past the shortened list; fzf only appends when the session ends
+
+//@ func History.override
+//@ property C18
+//@ requires h != nil && validHistory(h)
+//@ modifies h.lines[h.cursor:h.cursor+1], map(h.modified)
+//@ ensures h.cursor == len(h.lines) - 1 ==> samestr(h.lines[h.cursor], str)
+//@ ensures h.cursor < len(h.lines) - 1 ==> maphas(h.modified, h.cursor) && samestr(mapget(h.modified, h.cursor), str)
+//@ ensures h.cursor < len(h.lines) - 1 ==> forall(k, 0, len(h.lines), samestr(h.lines[k], old(h.lines[k])))
+
+//@ func History.current
+//@ property C18
+//@ requires h != nil && validHistory(h)
+//@ ensures maphas(h.modified, h.cursor) ==> samestr(result, mapget(h.modified, h.cursor))
+//@ ensures !maphas(h.modified, h.cursor) ==> samestr(result, h.lines[h.cursor])
+
+//@ func History.previous
+//@ property C18
+//@ requires h != nil && validHistory(h)
+//@ modifies h.cursor
+//@ ensures h.cursor == (old(h.cursor) > 0 ? old(h.cursor) - 1 : 0) && validHistory(h)
+//@ ensures maphas(h.modified, h.cursor) ? samestr(result, mapget(h.modified, h.cursor)) : samestr(result, h.lines[h.cursor])
+
+//@ func History.next
+//@ property C18
+//@ requires h != nil && validHistory(h)
+//@ modifies h.cursor
+//@ ensures h.cursor == (old(h.cursor) < len(h.lines) - 1 ? old(h.cursor) + 1 : old(h.cursor)) && validHistory(h)
+//@ ensures maphas(h.modified, h.cursor) ? samestr(result, mapget(h.modified, h.cursor)) : samestr(result, h.lines[h.cursor])
